@@ -220,6 +220,7 @@ def gen_cases(tier, seed):
     for d in big:
         pd = d['pdim']
         cases.append(dict(kind='shape', items=[dict(shape=d, delta=DELTAS[pd][0])], container=False, fmts=FMT_BY_PDIM[pd]))
+    cases.append(dict(kind='session', name='sizes'))
     # ---- containers of 1..4 shapes (rotation 0 is drawn from the quick alphabet in both tiers)
     for pd in (1, 2, 3):
         for rot in range(1 if q else 3):
@@ -255,6 +256,8 @@ def gen_cases(tier, seed):
 
 
 def case_weight(c):
+    if c.get('kind') == 'session':
+        return 5000
     w = 0
     for it in c['items']:
         n = 1
@@ -745,7 +748,28 @@ FORMATS = dict(json=_fmt_json, dict=_fmt_dict, smesh=_fmt_mesh, vmesh=_fmt_mesh,
 
 # ----------------------------------------------------------------------------------------
 
+def _session_cases(name, tier):
+    """long session: mesh / json / 2-D text round trips of surfaces with 40 pairwise different net sizes (and volumes a x b x 2)"""
+    out = []
+    for a in range(2, 8):
+        for b in range(2, 10):
+            if a == b:
+                continue
+            d = A.shape_desc([A.uniform_kv(1, a), A.uniform_kv(1, b)], [1, 1], (a + b) % 2 == 0, 3, 'coded', 'coded')
+            out.append(dict(kind='shape', items=[dict(shape=d, delta=DELTAS[2][0])], container=False,
+                            fmts=[f for f in FMT_BY_PDIM[2] if f[0] in ('smesh', 'json', 'txt2')]))
+            if (a + b) % 4 == 0:
+                v = A.shape_desc([A.uniform_kv(1, a), A.uniform_kv(1, b), A.uniform_kv(1, 2)], [1, 1, 1], False, 3, 'coded')
+                out.append(dict(kind='shape', items=[dict(shape=v, delta=DELTAS[3][0])], container=False,
+                                fmts=[f for f in FMT_BY_PDIM[3] if f[0] in ('vmesh', 'json')]))
+    return out
+
+
 def run_case(case, ctx):
+    if case.get('kind') == 'session':
+        import sys
+        from .. import core
+        return core.run_session(sys.modules[__name__], ctx, case, _session_cases(case['name'], ctx.tier), 12)
     seed = ctx.seed
     tmp = tempfile.mkdtemp(prefix='c14-')
     try:
